@@ -43,6 +43,10 @@ def instances(tier):
             out.append({"kind": "at5_zone_status", "n": n, "delta": d})
             out.append({"kind": "at5_ac_status", "n": n, "delta": d})
             out.append({"kind": "at5_timer_status", "n": n, "delta": d})
+    # history: the same (process-wide) decoder has seen a report with another record stride before
+    for kind in ("at5_zone_status", "at5_ac_status", "at5_timer_status"):
+        out.append({"kind": kind, "n": 2, "delta": 2, "after": 0})
+        out.append({"kind": kind, "n": 2, "delta": 0, "after": 2})
     for fmt in (["22"], ["24"], ["22", "24"], ["24", "22"]):
         for gpos in ([[0, 7, 8], [1, 15]] if tier == "quick" else [[0, 7, 8], [1, 15], [2, 3, 4], [5, 6, 9], [10, 11, 12], [13, 14, 15]]):
             if "24" in fmt:
@@ -113,7 +117,24 @@ def _decode(g, mtype, data, ctx):
 def run(ctx, p):
     k = p["kind"]
     fn = globals()["_" + k]
+    if p.get("after") is not None:
+        _prime(k, p["after"])
     return fn(ctx, p)
+
+
+def _prime(kind, delta):
+    """An earlier, concrete, valid report of the same kind with record stride known+delta goes through the registry's decoder."""
+    g = Gen(5)
+    pad = [0xAA] * delta
+    if kind == "at5_zone_status":
+        sub, known, recs = 0x21, 8, [r5.build_zone_status(n, 1, 1, 50, 120, 1, 730, 0, 0) + pad for n in (0, 1)]
+    elif kind == "at5_ac_status":
+        sub, known, recs = 0x23, 8, [r5.build_ac_status(n, 1, 4, 2, 120, 0, 0, 0, 0, 740, 0, pad=0) + pad for n in (0, 1)]
+    else:
+        sub, known, recs = 0x33, 9, [r5.build_timer_status(n, 0, 7, 30, 1, 0, 0) + pad for n in (0, 1)]
+    data = framing.c0(sub, [], known + delta, 2, [b for r in recs for b in r])
+    hdr = g.Header(0xB0, 0x80, 1, 0xC0, len(data))
+    g.reg.get_decoder(0xC0).decode(bytes(data), hdr)
 
 
 # ------------------------------------------------------------------------- AT4
